@@ -33,6 +33,7 @@ type c01Op struct {
 	Len    int    `json:"len,omitempty"`  // write payload length
 	Fill   byte   `json:"fill,omitempty"` // write payload pattern seed
 	Stable uint32 `json:"stable,omitempty"`
+	Guard  string `json:"guard,omitempty"` // setsize: "" no sattrguard3, "match" the current ctime, "stale" another ctime
 	Data   []byte `json:"-"`
 }
 
@@ -159,6 +160,9 @@ func genC01(t *rapid.T) c01Case {
 				op.Fill = rapid.Byte().Draw(t, "fill")
 				op.Len = ln
 				op.Stable = pick(t, "stable", uint32(0), 1, 2)
+			}
+			if op.Kind == "setsize" {
+				op.Guard = pick(t, "guard", "", "", "", "match", "stale")
 			}
 		}
 		c.Ops = append(c.Ops, op)
@@ -345,7 +349,20 @@ func runC01(tb stat.TB, c c01Case) {
 					continue
 				}
 				sz := resolveOff(op, m)
-				res := s.nfs(nfsx.ProcSetattr, nfsx.ArgsSetattr(fhs[op.File], nfsx.Sattr{Size: nfsx.U64p(sz)}, nil))
+				var guardT *nfsx.Time
+				if op.Guard != "" {
+					if ga := s.nfs(nfsx.ProcGetattr, nfsx.ArgsFh(fhs[op.File])); ga.Status == nfsx.OK && ga.Attr != nil {
+						g := ga.Attr.Ctime
+						if op.Guard == "stale" {
+							g.Sec += 7
+						}
+						guardT = &g
+					}
+				}
+				res := s.nfs(nfsx.ProcSetattr, nfsx.ArgsSetattr(fhs[op.File], nfsx.Sattr{Size: nfsx.U64p(sz)}, guardT))
+				if guardT != nil {
+					labels["setsize_guard_"+op.Guard+"_"+statusName(res.Status)] = true
+				}
 				if res.Status == nfsx.OK {
 					if sz > math.MaxInt64 {
 						if stat.Violate(tb, id, check, "setattr-size-overflow-ok", c, "%s size %d replied OK", what, sz) {
